@@ -1,0 +1,123 @@
+//! Trace sink: ordered list of JSON lines, one per event. Inert unless `start()` was called.
+
+use std::sync::atomic::{AtomicBool, AtomicU64, Ordering};
+use std::sync::Mutex;
+
+static ON: AtomicBool = AtomicBool::new(false);
+static SEQ: AtomicU64 = AtomicU64::new(0);
+static SINK: Mutex<Vec<String>> = Mutex::new(Vec::new());
+static T0: Mutex<Option<tokio::time::Instant>> = Mutex::new(None);
+
+/// Start (or restart) recording.
+pub fn start() {
+    let mut sink = SINK.lock().unwrap_or_else(|e| e.into_inner());
+    sink.clear();
+    SEQ.store(0, Ordering::SeqCst);
+    *T0.lock().unwrap_or_else(|e| e.into_inner()) = None;
+    ON.store(true, Ordering::SeqCst);
+}
+
+/// Stop recording and return the recorded lines.
+pub fn stop() -> Vec<String> {
+    ON.store(false, Ordering::SeqCst);
+    let mut sink = SINK.lock().unwrap_or_else(|e| e.into_inner());
+    std::mem::take(&mut *sink)
+}
+
+/// Take the lines recorded so far, keep recording.
+pub fn drain() -> Vec<String> {
+    let mut sink = SINK.lock().unwrap_or_else(|e| e.into_inner());
+    std::mem::take(&mut *sink)
+}
+
+/// Is a tracer installed?
+pub fn on() -> bool {
+    ON.load(Ordering::Relaxed)
+}
+
+/// Record one event. `body` is the inside of a JSON object (without braces), e.g. `"ev":"X","a":1`.
+pub fn emit(src: &str, body: &str) {
+    if !on() {
+        return;
+    }
+    let mut sink = SINK.lock().unwrap_or_else(|e| e.into_inner());
+    let seq = SEQ.fetch_add(1, Ordering::SeqCst);
+    let now = tokio::time::Instant::now();
+    let vt = {
+        let mut t0 = T0.lock().unwrap_or_else(|e| e.into_inner());
+        now.duration_since(*t0.get_or_insert(now)).as_millis()
+    };
+    sink.push(format!(
+        "{{\"seq\":{},\"vt\":{},\"src\":\"{}\",{}}}",
+        seq, vt, src, body
+    ));
+}
+
+/// JSON string escaping for the few free-text fields (reasons, addresses).
+pub fn esc(s: &str) -> String {
+    let mut out = String::with_capacity(s.len() + 2);
+    for c in s.chars() {
+        match c {
+            '"' => out.push_str("\\\""),
+            '\\' => out.push_str("\\\\"),
+            c if (c as u32) < 0x20 => out.push_str(&format!("\\u{:04x}", c as u32)),
+            c => out.push(c),
+        }
+    }
+    out
+}
+
+fn be32(b: &[u8]) -> u64 {
+    ((b[0] as u64) << 24) | ((b[1] as u64) << 16) | ((b[2] as u64) << 8) | b[3] as u64
+}
+
+fn hex(b: &[u8]) -> String {
+    b.iter().map(|x| format!("{:02x}", x)).collect()
+}
+
+/// Describe the bytes of one message written by the client as a JSON object (hook-side reader; the
+/// harness re-reads the raw bytes at the remote end independently).
+pub fn describe(d: &[u8]) -> String {
+    if d.len() == 68 && d[0] == 19 {
+        return format!(
+            "{{\"k\":\"Handshake\",\"pstr\":\"{}\",\"ih\":\"{}\",\"id\":\"{}\"}}",
+            hex(&d[1..20]),
+            hex(&d[28..48]),
+            hex(&d[48..68])
+        );
+    }
+    if d.len() == 4 && be32(d) == 0 {
+        return "{\"k\":\"KeepAlive\"}".to_string();
+    }
+    if d.len() < 5 || be32(d) as usize + 4 != d.len() {
+        return format!("{{\"k\":\"Raw\",\"hex\":\"{}\"}}", hex(&d[..d.len().min(32)]));
+    }
+    let body = &d[5..];
+    match (d[4], body.len()) {
+        (0, 0) => "{\"k\":\"Choke\"}".to_string(),
+        (1, 0) => "{\"k\":\"Unchoke\"}".to_string(),
+        (2, 0) => "{\"k\":\"Interested\"}".to_string(),
+        (3, 0) => "{\"k\":\"NotInterested\"}".to_string(),
+        (4, 4) => format!("{{\"k\":\"Have\",\"a\":[{}]}}", be32(body)),
+        (5, _) => format!("{{\"k\":\"Bitfield\",\"hex\":\"{}\"}}", hex(body)),
+        (6, 12) | (8, 12) => format!(
+            "{{\"k\":\"{}\",\"a\":[{},{},{}]}}",
+            if d[4] == 6 { "Request" } else { "Cancel" },
+            be32(body),
+            be32(&body[4..]),
+            be32(&body[8..])
+        ),
+        (7, n) if n >= 8 => {
+            let mut hasher = sha1_smol::Sha1::new();
+            hasher.update(&body[8..]);
+            format!(
+                "{{\"k\":\"Piece\",\"a\":[{},{},{}],\"sha\":\"{}\"}}",
+                be32(body),
+                be32(&body[4..]),
+                n - 8,
+                hasher.digest().to_string()
+            )
+        }
+        _ => format!("{{\"k\":\"Raw\",\"hex\":\"{}\"}}", hex(&d[..d.len().min(32)])),
+    }
+}
